@@ -232,7 +232,7 @@ class Ctx:
         import os
         import signal
         import threading
-        limit = float(os.environ.get('VFW_RUN_WALL_LIMIT', '150'))
+        limit = float(os.environ.get('VFW_RUN_WALL_LIMIT', '45'))
         armed = threading.current_thread() is threading.main_thread() and limit > 0
 
         def _fire(signum, frame):
